@@ -4,7 +4,7 @@ from props._hist import setup, with_recording, shrink, WORLD, HAS_CLOCK, RERECOR
 
 ID = 'C09'
 TIERS = {
-    'quick': {'runs': 20000, 'budget_s': 180, 'batch': 125},
+    'quick': {'runs': 30000, 'budget_s': 240, 'batch': 125},
     'thorough': {'runs': 800000, 'budget_s': 900, 'batch': 500},
 }
 generate = _hist.make_generate('c09')
